@@ -30,24 +30,26 @@ theorem C10_valve_decoders_law (ext : Ext) (compress : Bytes → Bytes) (hlaw : 
     (cfg : Config) (st : State) (hcar : carries compress ext.crc32 cfg st) : DecodersAgree ext cfg st :=
   decodersAgree_of_law ext compress hlaw cfg st hcar
 
-/-- THE GENERAL STATEMENT.  For every plan in C10's domain for the retry count (`wfPlan`: a unit that is answered —
-validly or by a datagram shorter than a packet header — had at most `retries` timeout-class failures before, a unit that
-is given up had exactly `retries + 1`), the query on the plan's script returns the outcome the property prescribes
-(`faultyExpected`: the first unit that does not end with the server's reply decides — its error if it is the info unit
-or enforced, an absent section if it is only tried; otherwise the fault-free response), and the datagrams it put on the
-wire are exactly the plan's (`faultySends`: every attempt of every unit reached, each starting with the unit's initial
-request; nothing after the unit that ends the query). -/
+/-- THE GENERAL STATEMENT.  For every plan in C10's domain for the retry count (`wfPlanReached`: a unit that is
+answered — validly or by a datagram shorter than a packet header — had at most `retries` timeout-class failures before, a
+unit that is given up had exactly `retries + 1`; asked of the units the query reaches), whatever follows the plan's
+deliveries in the script (`restQ`) and the plan's flags in the send-fault vector (`restF`), the query returns the outcome
+the property prescribes (`faultyExpected`: the first unit that does not end with the server's reply decides — its error if
+it is the info unit or enforced, an absent section if it is only tried; otherwise the fault-free response), and the
+datagrams it put on the wire are exactly the plan's (`faultySends`: every attempt of every unit reached, each starting
+with the unit's initial request; nothing after the unit that ends the query). -/
 theorem C10_valve_query_faulty (ext : Ext) (port retries : Nat) (cfg : Config) (st : State)
     (hwf : wf cfg st = true) (hx : wfExchanges cfg = true) (hdec : DecodersAgree ext cfg st) (ai ap ar : List Bytes)
     (hai : ai.Perm (infoDatagrams cfg st)) (hap : ap.Perm (playersDatagrams cfg st))
     (har : ar.Perm (rulesDatagrams cfg st)) (hfit : fits (scriptAs cfg ai ap ar) = true)
-    (plan : Plan) (hplan : wfPlan retries cfg plan = true) :
+    (plan : Plan) (hplan : wfPlanReached retries cfg st plan = true) (restQ : List Delivery) (restF : List Bool) :
     (Valve.query ext port cfg.engine cfg.gather retries
-        (Net.init [.opened (faultyScript cfg plan ai ap ar)] (faultyFaults cfg plan))).1 = faultyExpected cfg st plan
+        (Net.init [.opened (faultyScript cfg plan ai ap ar ++ restQ)] (faultyFaults cfg plan ++ restF))).1
+      = faultyExpected cfg st plan
     ∧ sentOf (Valve.query ext port cfg.engine cfg.gather retries
-        (Net.init [.opened (faultyScript cfg plan ai ap ar)] (faultyFaults cfg plan))).2.log
+        (Net.init [.opened (faultyScript cfg plan ai ap ar ++ restQ)] (faultyFaults cfg plan ++ restF))).2.log
       = faultySends cfg st plan :=
-  query_faulty ext port retries cfg st hwf hx hdec.1 hdec.2.1 hdec.2.2 ai ap ar hai hap har hfit plan hplan
+  query_faulty ext port retries cfg st hwf hx hdec.1 hdec.2.1 hdec.2.2 ai ap ar hai hap har hfit plan hplan restQ restF
 
 /-- (a) RECOVERY.  `fi`, `fp`, `fr` are the failed attempts (any number ≤ `retries` for every unit that is gathered;
 each a silence or a failed send after any number of answered challenge rounds) placed before the valid exchange of
@@ -60,10 +62,11 @@ theorem C10_valve_query_recovers (ext : Ext) (port retries : Nat) (cfg : Config)
     (hai : ai.Perm (infoDatagrams cfg st)) (hap : ap.Perm (playersDatagrams cfg st))
     (har : ar.Perm (rulesDatagrams cfg st)) (hfit : fits (scriptAs cfg ai ap ar) = true)
     (fi fp fr : List Attempt) (hki : fi.length ≤ retries)
-    (hkp : cfg.gather.players ≠ .skip → fp.length ≤ retries) (hkr : cfg.gather.rules ≠ .skip → fr.length ≤ retries) :
+    (hkp : cfg.gather.players ≠ .skip → fp.length ≤ retries) (hkr : cfg.gather.rules ≠ .skip → fr.length ≤ retries)
+    (restQ : List Delivery) (restF : List Bool) :
     let plan : Plan := ⟨⟨fi, .valid⟩, ⟨fp, .valid⟩, ⟨fr, .valid⟩⟩
     let out := Valve.query ext port cfg.engine cfg.gather retries
-        (Net.init [.opened (faultyScript cfg plan ai ap ar)] (faultyFaults cfg plan))
+        (Net.init [.opened (faultyScript cfg plan ai ap ar ++ restQ)] (faultyFaults cfg plan ++ restF))
     let reached : List Request := if appIdOk cfg.engine cfg.gather st.info.appid then [.info, .players, .rules] else [.info]
     out.1 = expected cfg st
     ∧ sentOf out.2.log = sendsOf cfg plan reached
@@ -82,7 +85,8 @@ theorem C10_valve_query_recovers (ext : Ext) (port retries : Nat) (cfg : Config)
   have herr : ∀ u, toggleOf cfg u ≠ .skip → (plan.unit u).error = none := by
     intro u _
     cases u <;> rfl
-  obtain ⟨h1, h2⟩ := C10_valve_query_faulty ext port retries cfg st hwf hx hdec ai ap ar hai hap har hfit plan hplan
+  obtain ⟨h1, h2⟩ := C10_valve_query_faulty ext port retries cfg st hwf hx hdec ai ap ar hai hap har hfit plan
+    (wfPlanReached_of_wfPlan retries cfg st plan hplan) restQ restF
   rw [faultyExpected_recovers cfg st plan herr] at h1
   rw [faultySends_recovers cfg st plan herr] at h2
   refine ⟨h1, h2, ?_⟩
@@ -100,17 +104,21 @@ failure (`gaveUp`; by `wfPlan` it then has exactly `retries + 1` failed attempts
 eventually answered, and `u` is the info unit or its toggle is Enforce.  The query fails with the last failed attempt's
 error — `PacketReceive`, or `PacketSend` when that attempt ended on a failed send (`C10_valve_last_error`) —, what was
 sent are the attempts of the units up to `u` and NOTHING of the later units, and `u` was attempted exactly
-`retries + 1` times. -/
+`retries + 1` times.  Only the units up to `u` need to be in C10's domain (`hplan`); the plans of the later units and
+whatever else follows in the script and in the fault vector (`restQ`, `restF`) are arbitrary — e.g. further silences, the
+valid exchange the server would still have sent, … -/
 theorem C10_valve_query_exhausted (ext : Ext) (port retries : Nat) (cfg : Config) (st : State)
     (hwf : wf cfg st = true) (hx : wfExchanges cfg = true) (hdec : DecodersAgree ext cfg st) (ai ap ar : List Bytes)
     (hai : ai.Perm (infoDatagrams cfg st)) (hap : ap.Perm (playersDatagrams cfg st))
     (har : ar.Perm (rulesDatagrams cfg st)) (hfit : fits (scriptAs cfg ai ap ar) = true)
-    (plan : Plan) (hplan : wfPlan retries cfg plan = true) (u : Request)
+    (plan : Plan) (u : Request)
+    (hplan : ∀ v ∈ earlier u ++ [u], toggleOf cfg v ≠ .skip → wfUnit retries (plan.unit v) = true)
     (hearlier : ∀ v ∈ earlier u, toggleOf cfg v ≠ .skip → (plan.unit v).ending = .valid)
     (hu : (plan.unit u).ending = .gaveUp) (henf : toggleOf cfg u = .enforce)
-    (happ : u ≠ .info → appIdOk cfg.engine cfg.gather st.info.appid = true) :
+    (happ : u ≠ .info → appIdOk cfg.engine cfg.gather st.info.appid = true)
+    (restQ : List Delivery) (restF : List Bool) :
     let out := Valve.query ext port cfg.engine cfg.gather retries
-        (Net.init [.opened (faultyScript cfg plan ai ap ar)] (faultyFaults cfg plan))
+        (Net.init [.opened (faultyScript cfg plan ai ap ar ++ restQ)] (faultyFaults cfg plan ++ restF))
     out.1 = .err (lastError Attempt.error (plan.unit u).fails)
     ∧ (out.1 = .err .packetReceive ∨ out.1 = .err .packetSend)
     ∧ sentOf out.2.log = sendsOf cfg plan (earlier u ++ [u])
@@ -119,17 +127,12 @@ theorem C10_valve_query_exhausted (ext : Ext) (port retries : Nat) (cfg : Config
   intro out
   have hearlier' : ∀ v ∈ earlier u, toggleOf cfg v ≠ .skip → (plan.unit v).error = none :=
     fun v hv hg => error_of_valid (hearlier v hv hg)
-  obtain ⟨h1, h2⟩ := C10_valve_query_faulty ext port retries cfg st hwf hx hdec ai ap ar hai hap har hfit plan hplan
+  obtain ⟨h1, h2⟩ := C10_valve_query_faulty ext port retries cfg st hwf hx hdec ai ap ar hai hap har hfit plan
+    (wfPlanReached_stops retries cfg st plan u _ hplan (error_of_gaveUp hu) henf) restQ restF
   rw [faultyExpected_stops cfg st plan u _ hearlier' (error_of_gaveUp hu) henf happ] at h1
   rw [faultySends_stops cfg st plan u _ hearlier' (error_of_gaveUp hu) henf happ] at h2
   have hlen : (plan.unit u).fails.length = retries + 1 := by
-    have hne : toggleOf cfg u ≠ .skip := by rw [henf]; decide
-    have : wfUnit retries (plan.unit u) = true := by
-      simp only [wfPlan, Bool.and_eq_true, Bool.or_eq_true, beq_iff_eq] at hplan
-      cases u with
-      | info => exact hplan.1.1
-      | players => exact hplan.1.2.resolve_left hne
-      | rules => exact hplan.2.resolve_left hne
+    have : wfUnit retries (plan.unit u) = true := hplan u (by simp) (by rw [henf]; decide)
     simpa [wfUnit, hu] using this
   have hnd : (earlier u ++ [u]).Nodup := by cases u <;> decide
   refine ⟨h1, ?_, h2, ?_, ?_⟩
@@ -172,9 +175,9 @@ theorem C10_valve_query_failed_try (ext : Ext) (port retries : Nat) (cfg : Confi
     (har : ar.Perm (rulesDatagrams cfg st)) (hfit : fits (scriptAs cfg ai ap ar) = true)
     (plan : Plan) (hplan : wfPlan retries cfg plan = true) (u : Request)
     (hothers : ∀ v, v ≠ u → toggleOf cfg v ≠ .skip → (plan.unit v).ending = .valid)
-    (hu : (plan.unit u).ending ≠ .valid) (htry : toggleOf cfg u = .try_) :
+    (hu : (plan.unit u).ending ≠ .valid) (htry : toggleOf cfg u = .try_) (restQ : List Delivery) (restF : List Bool) :
     let out := Valve.query ext port cfg.engine cfg.gather retries
-        (Net.init [.opened (faultyScript cfg plan ai ap ar)] (faultyFaults cfg plan))
+        (Net.init [.opened (faultyScript cfg plan ai ap ar ++ restQ)] (faultyFaults cfg plan ++ restF))
     let reached : List Request := if appIdOk cfg.engine cfg.gather st.info.appid then [.info, .players, .rules] else [.info]
     out.1 = (expected cfg st >>= fun r => .ok (withoutSection r u))
     ∧ sentOf out.2.log = sendsOf cfg plan reached
@@ -184,7 +187,8 @@ theorem C10_valve_query_failed_try (ext : Ext) (port retries : Nat) (cfg : Confi
   have hothers' : ∀ v, v ≠ u → toggleOf cfg v ≠ .skip → (plan.unit v).error = none :=
     fun v hv hg => error_of_valid (hothers v hv hg)
   obtain ⟨k, hk⟩ := error_of_not_valid hu
-  obtain ⟨h1, h2⟩ := C10_valve_query_faulty ext port retries cfg st hwf hx hdec ai ap ar hai hap har hfit plan hplan
+  obtain ⟨h1, h2⟩ := C10_valve_query_faulty ext port retries cfg st hwf hx hdec ai ap ar hai hap har hfit plan
+    (wfPlanReached_of_wfPlan retries cfg st plan hplan) restQ restF
   rw [faultyExpected_try cfg st plan u k hothers' hk htry] at h1
   rw [faultySends_try cfg st plan u k hothers' hk htry] at h2
   refine ⟨h1, h2, ?_⟩
@@ -201,17 +205,20 @@ and after any number `j` of answered challenge rounds) receives a datagram `m` t
 shorter than the 5 bytes of a packet header (`wfPlan`), whatever its bytes; `u` is the info unit or enforced, the
 gathered units before it are eventually answered.  Whatever `retries` is, the unit ends at once: the query fails with
 `PacketUnderflow` (not a timeout-class error), the malformed attempt is the last thing sent — no further request of that
-unit, nothing of the later units. -/
+unit, nothing of the later units — whatever the script still holds (the plans of the later units, `restQ`, `restF` are
+arbitrary: for instance the valid reply, which is never read). -/
 theorem C10_valve_query_malformed_not_retried (ext : Ext) (port retries : Nat) (cfg : Config) (st : State)
     (hwf : wf cfg st = true) (hx : wfExchanges cfg = true) (hdec : DecodersAgree ext cfg st) (ai ap ar : List Bytes)
     (hai : ai.Perm (infoDatagrams cfg st)) (hap : ap.Perm (playersDatagrams cfg st))
     (har : ar.Perm (rulesDatagrams cfg st)) (hfit : fits (scriptAs cfg ai ap ar) = true)
-    (plan : Plan) (hplan : wfPlan retries cfg plan = true) (u : Request) (j : Nat) (m : Bytes)
+    (plan : Plan) (u : Request) (j : Nat) (m : Bytes)
+    (hplan : ∀ v ∈ earlier u ++ [u], toggleOf cfg v ≠ .skip → wfUnit retries (plan.unit v) = true)
     (hearlier : ∀ v ∈ earlier u, toggleOf cfg v ≠ .skip → (plan.unit v).ending = .valid)
     (hu : (plan.unit u).ending = .malformed j m) (henf : toggleOf cfg u = .enforce)
-    (happ : u ≠ .info → appIdOk cfg.engine cfg.gather st.info.appid = true) :
+    (happ : u ≠ .info → appIdOk cfg.engine cfg.gather st.info.appid = true)
+    (restQ : List Delivery) (restF : List Bool) :
     let out := Valve.query ext port cfg.engine cfg.gather retries
-        (Net.init [.opened (faultyScript cfg plan ai ap ar)] (faultyFaults cfg plan))
+        (Net.init [.opened (faultyScript cfg plan ai ap ar ++ restQ)] (faultyFaults cfg plan ++ restF))
     out.1 = .err .packetUnderflow
     ∧ ErrKind.packetUnderflow.isTimeout = false
     ∧ sentOf out.2.log = sendsOf cfg plan (earlier u ++ [u])
@@ -220,7 +227,8 @@ theorem C10_valve_query_malformed_not_retried (ext : Ext) (port retries : Nat) (
   intro out
   have hearlier' : ∀ v ∈ earlier u, toggleOf cfg v ≠ .skip → (plan.unit v).error = none :=
     fun v hv hg => error_of_valid (hearlier v hv hg)
-  obtain ⟨h1, h2⟩ := C10_valve_query_faulty ext port retries cfg st hwf hx hdec ai ap ar hai hap har hfit plan hplan
+  obtain ⟨h1, h2⟩ := C10_valve_query_faulty ext port retries cfg st hwf hx hdec ai ap ar hai hap har hfit plan
+    (wfPlanReached_stops retries cfg st plan u _ hplan (error_of_malformed hu) henf) restQ restF
   rw [faultyExpected_stops cfg st plan u _ hearlier' (error_of_malformed hu) henf happ] at h1
   rw [faultySends_stops cfg st plan u _ hearlier' (error_of_malformed hu) henf happ] at h2
   have hnd : (earlier u ++ [u]).Nodup := by cases u <;> decide
@@ -249,11 +257,13 @@ theorem C10_valve_no_faults (cfg : Config) (ai ap ar : List Bytes) :
 fragments, players behind 1 challenge round, enforced; rules split in 2, tried), retries = 2 -/
 
 /-- the query on the script of a plan for the demo server, final replies arriving in order -/
-def C10_valve_demoRun (ext : Ext) (port retries : Nat) (plan : Plan) : Res Response × Net :=
+def C10_valve_demoRun (ext : Ext) (port retries : Nat) (plan : Plan) (restQ : List Delivery := []) :
+    Res Response × Net :=
   Valve.query ext port C02_whole_demoCfg.engine C02_whole_demoCfg.gather retries
     (Net.init [.opened (faultyScript C02_whole_demoCfg plan (infoDatagrams C02_whole_demoCfg C02_whole_demoState)
-      (playersDatagrams C02_whole_demoCfg C02_whole_demoState) (rulesDatagrams C02_whole_demoCfg C02_whole_demoState))]
-      (faultyFaults C02_whole_demoCfg plan))
+      (playersDatagrams C02_whole_demoCfg C02_whole_demoState) (rulesDatagrams C02_whole_demoCfg C02_whole_demoState)
+      ++ restQ)]
+      (faultyFaults C02_whole_demoCfg plan ++ []))
 
 /-- one lost info reply (silence at the initial request) and one lost CHALLENGED players request (the server answers the
 challenge round, the reply to the challenged request is lost) -/
@@ -273,6 +283,7 @@ example (ext : Ext) (port : Nat) :
   have h := C10_valve_query_recovers ext port 2 C02_whole_demoCfg C02_whole_demoState (by decide) (by decide)
     (C10_valve_decoders_uncompressed ext _ _ (by decide)) _ _ _ (List.Perm.refl _) (List.Perm.refl _)
     (List.Perm.refl _) (by decide) [⟨0, false⟩] [⟨1, false⟩] [] (by decide) (fun _ => by decide) (fun _ => by decide)
+    [] []
   have he : expected C02_whole_demoCfg C02_whole_demoState
       = .ok ⟨C02_whole_demoState.info, some C02_whole_demoState.players, some C02_whole_demoState.rules⟩ := by decide
   simp only at h
@@ -289,18 +300,21 @@ def C10_valve_demoPlanB : Plan := ⟨⟨[], .valid⟩, ⟨[⟨0, false⟩, ⟨1,
 /-- the same ending on the failed send -/
 def C10_valve_demoPlanB' : Plan := ⟨⟨[], .valid⟩, ⟨[⟨0, false⟩, ⟨1, false⟩, ⟨1, true⟩], .gaveUp⟩, ⟨[], .valid⟩⟩
 
--- (b) PacketReceive after exactly 3 attempts, no rules request; ending on the failed send: PacketSend
-example (ext : Ext) (port : Nat) :
-    (C10_valve_demoRun ext port 2 C10_valve_demoPlanB).1 = .err .packetReceive
-    ∧ attemptsOf .players (sentOf (C10_valve_demoRun ext port 2 C10_valve_demoPlanB).2.log) = 3
-    ∧ attemptsOf .rules (sentOf (C10_valve_demoRun ext port 2 C10_valve_demoPlanB).2.log) = 0
-    ∧ (C10_valve_demoRun ext port 2 C10_valve_demoPlanB').1 = .err .packetSend := by
+-- (b) PacketReceive after exactly 3 attempts, no rules request — whatever follows in the script (here: a further
+-- silence and the valid players reply the server would still have sent); ending on the failed send: PacketSend
+example (ext : Ext) (port : Nat) (restQ : List Delivery) :
+    (C10_valve_demoRun ext port 2 C10_valve_demoPlanB restQ).1 = .err .packetReceive
+    ∧ attemptsOf .players (sentOf (C10_valve_demoRun ext port 2 C10_valve_demoPlanB restQ).2.log) = 3
+    ∧ attemptsOf .rules (sentOf (C10_valve_demoRun ext port 2 C10_valve_demoPlanB restQ).2.log) = 0
+    ∧ (C10_valve_demoRun ext port 2 C10_valve_demoPlanB' restQ).1 = .err .packetSend := by
   have h := C10_valve_query_exhausted ext port 2 C02_whole_demoCfg C02_whole_demoState (by decide) (by decide)
     (C10_valve_decoders_uncompressed ext _ _ (by decide)) _ _ _ (List.Perm.refl _) (List.Perm.refl _)
-    (List.Perm.refl _) (by decide) C10_valve_demoPlanB (by decide) .players (by decide) rfl rfl (fun _ => by decide)
+    (List.Perm.refl _) (by decide) C10_valve_demoPlanB .players (by decide) (by decide) rfl rfl (fun _ => by decide)
+    restQ []
   have h' := C10_valve_query_exhausted ext port 2 C02_whole_demoCfg C02_whole_demoState (by decide) (by decide)
     (C10_valve_decoders_uncompressed ext _ _ (by decide)) _ _ _ (List.Perm.refl _) (List.Perm.refl _)
-    (List.Perm.refl _) (by decide) C10_valve_demoPlanB' (by decide) .players (by decide) rfl rfl (fun _ => by decide)
+    (List.Perm.refl _) (by decide) C10_valve_demoPlanB' .players (by decide) (by decide) rfl rfl (fun _ => by decide)
+    restQ []
   exact ⟨h.1, h.2.2.2.1 (by decide), h.2.2.2.2 .rules (by decide), h'.1⟩
 
 /-- a failed send after both info challenge rounds, then the rules unit (tried) times out three times -/
@@ -314,7 +328,7 @@ example (ext : Ext) (port : Nat) :
   have h := C10_valve_query_failed_try ext port 2 C02_whole_demoCfg C02_whole_demoState (by decide) (by decide)
     (C10_valve_decoders_uncompressed ext _ _ (by decide)) _ _ _ (List.Perm.refl _) (List.Perm.refl _)
     (List.Perm.refl _) (by decide) C10_valve_demoPlanT (by decide) .rules
-    (fun v hv _ => by cases v <;> first | rfl | exact absurd rfl hv) (by decide) rfl
+    (fun v hv _ => by cases v <;> first | rfl | exact absurd rfl hv) (by decide) rfl [] []
   have he : (expected C02_whole_demoCfg C02_whole_demoState >>= fun r => Res.ok (withoutSection r .rules))
       = .ok ⟨C02_whole_demoState.info, some C02_whole_demoState.players, none⟩ := by decide
   rw [← he]; exact h.1
@@ -329,8 +343,8 @@ example (ext : Ext) (port : Nat) :
     ∧ (sentOf (C10_valve_demoRun ext port 3 C10_valve_demoPlanM).2.log).length = 4 := by
   have h := C10_valve_query_malformed_not_retried ext port 3 C02_whole_demoCfg C02_whole_demoState (by decide) (by decide)
     (C10_valve_decoders_uncompressed ext _ _ (by decide)) _ _ _ (List.Perm.refl _) (List.Perm.refl _)
-    (List.Perm.refl _) (by decide) C10_valve_demoPlanM (by decide) .info 2 [0xFF, 0xFF] (by decide) rfl rfl
-    (fun h => absurd rfl h)
+    (List.Perm.refl _) (by decide) C10_valve_demoPlanM .info 2 [0xFF, 0xFF] (by decide) (by decide) rfl rfl
+    (fun h => absurd rfl h) [] []
   refine ⟨h.1, h.2.2.2 (by decide), ?_⟩
   have h2 := h.2.2.1
   unfold C10_valve_demoRun
